@@ -135,7 +135,7 @@ def run(ctx):
     # defragmenter: oracle histories and random op sequences
     hl = ['rp ' + ' '.join(c07.gen_history(rng).steps) for _ in range(2000 if ctx.thorough else 300)]
     hl += ['rp ' + ' '.join(c07.random_history(rng)) for _ in range(6000 if ctx.thorough else 1000)]
-    hl += ['rp ' + ' '.join(c07.overfull_first_fragment(rng).steps), 'rp ' + ' '.join(c07.oversize_history(rng, jump=True).steps)]
+    hl += ['rp ' + ' '.join(c07.overfull_first_fragment(rng, x).steps) for x in (0, 1)] + ['rp ' + ' '.join(c07.oversize_history(rng, jump=True).steps)]
     hl += ['rp ' + ' '.join(c07.big_message_history(rng).steps) for _ in range(8 if ctx.thorough else 3)]
     hl += ['rp p:22:771:0:- p:22:771:4:0e000000', 'rp p:24:771:0:- p:24:771:3:010000', 'rp p:22:771:0:- p:22:771:0:- n:22:771:0:- r p:22:771:0:-']
     lines += hl
